@@ -923,13 +923,16 @@ fn parents(
 ) -> Vec<anyhow::Result<SignedEntry>> {
     let mut res = Vec::new();
 
-    while !key.is_empty() {
-        let entry = get_exact(table, namespace, author, &key, false);
-        key.pop();
-        match entry {
+    // Walk all prefixes of `key`, from the key itself down to (and including) the empty key.
+    // Deletion markers are parents too: they must block older entries below them.
+    loop {
+        match get_exact(table, namespace, author, &key, true) {
             Err(err) => res.push(Err(err)),
             Ok(Some(entry)) => res.push(Ok(entry)),
-            Ok(None) => continue,
+            Ok(None) => {}
+        }
+        if key.pop().is_none() {
+            break;
         }
     }
     res.reverse();
